@@ -370,6 +370,81 @@ def _task(args):
                 '%s: %s\n%s' % (type(e).__name__, e, traceback.format_exc()))
 
 
+_FAM_CACHE = {}
+
+
+def _bfs_task(args):
+    modname, fam_index, tier, hists = args
+    try:
+        key = (modname, fam_index, tier)
+        if key not in _FAM_CACHE:
+            bind_repo()
+            mod = __import__(modname, fromlist=['x'])
+            fam = mod.families(tier)[fam_index]
+            fam.setup(tier)
+            _FAM_CACHE[key] = fam
+        from .bfs import expand_histories
+        return ('ok', _FAM_CACHE[key].name, expand_histories(_FAM_CACHE[key], tier, hists))
+    except BaseException as e:
+        return ('err', '%s[%d] level expansion' % (modname, fam_index),
+                '%s: %s\n%s' % (type(e).__name__, e, traceback.format_exc()))
+
+
+def run_level_bfs(pool, modname, fam_index, fam, tier):
+    """Level-synchronous explicit-state search with one seen-set (parent) and pooled expansion (workers)."""
+    st = Stats(fam.name)
+    t0 = time.time()
+    depth_cap = fam.depth_cap_for(tier) if hasattr(fam, 'depth_cap_for') else fam.depth_cap
+    r = _unwrap(pool.apply(_bfs_task, ((modname, fam_index, tier, []),)))
+    seen = {r[0][1]}
+    frontier = [[]]
+    closed = True
+    depth = 0
+    stopped = False
+    while frontier and depth < depth_cap and not stopped:
+        depth += 1
+        nchunks = max(1, min(len(frontier), NWORKERS * 4))
+        chunks = [frontier[i::nchunks] for i in range(nchunks)]
+        nxt = []
+        for res in pool.imap_unordered(_bfs_task, [(modname, fam_index, tier, c) for c in chunks]):
+            for nh, h, v, label, obs in _unwrap(res):
+                st.transitions += 1
+                case = {'history': label} if label is not None else {'history_indexes': nh}
+                st.add(case, Result('violation' if v else 'ok', True, v, calls=len(nh)))
+                if obs is not None and len(st.samples) < 2:
+                    st.samples.append({'family': fam.name, 'case': case, 'observations': obs})
+                if h is None or h in seen:
+                    continue
+                seen.add(h)
+                if len(nh) < depth_cap:
+                    nxt.append(nh)
+                else:
+                    closed = False
+        if st.nviolations >= fam.stop_after_violations:
+            st.exhaustive = False
+            st.cap_note = 'search stopped after %d violations' % st.nviolations
+            stopped = True
+            closed = False
+        if len(seen) > fam.max_states:
+            st.exhaustive = False
+            st.cap_note = 'max_states %d reached' % fam.max_states
+            stopped = True
+            closed = False
+        frontier = sorted(nxt)
+    st.states = len(seen)
+    st.extra['closure_reached'] = bool(closed and not frontier)
+    st.extra['max_depth_expanded'] = [depth]
+    st.extra['depth_cap'] = [depth_cap]
+    st.extra['cpu_s'] = round(time.time() - t0, 3)
+    return st
+
+
+def _unwrap(r):
+    if r[0] == 'err':
+        raise HarnessError('%s\n%s' % (r[1], r[2]))
+    return r[2]
+
+
 def load_known():
     path = os.path.join(VERIF_DIR, 'KNOWN_FINDINGS.json')
     if not os.path.exists(path):
@@ -443,8 +518,12 @@ def run_property(prop, tier, seed, only=None):
     mod = __import__(modname, fromlist=['x'])
     fams = mod.families(tier)
     tasks = []
+    level_fams = []
     for i, fam in enumerate(fams):
         if only and fam.name not in only:
+            continue
+        if getattr(fam, 'level_sync', False):
+            level_fams.append((i, fam))
             continue
         W = getattr(fam, 'workers', NWORKERS)
         for w in range(W):
@@ -453,7 +532,7 @@ def run_property(prop, tier, seed, only=None):
     merged = {}
     errors = []
     ctx = mp.get_context('fork')
-    with ctx.Pool(min(NWORKERS, max(1, len(tasks)))) as pool:
+    with ctx.Pool(NWORKERS) as pool:
         for status, name, payload in pool.imap_unordered(_task, tasks, chunksize=1):
             if status == 'err':
                 errors.append((name, payload))
@@ -461,6 +540,11 @@ def run_property(prop, tier, seed, only=None):
             if name not in merged:
                 merged[name] = Stats(name)
             merged[name].merge(payload)
+        for i, fam in level_fams:
+            try:
+                merged[fam.name] = run_level_bfs(pool, modname, i, fam, tier)
+            except HarnessError as e:
+                errors.append((fam.name, str(e)))
     if errors:
         for name, payload in errors[:5]:
             sys.stderr.write('HARNESS ERROR in %s\n%s\n' % (name, payload))
